@@ -218,6 +218,7 @@ Fixpoint scan_string_loop (fuel : nat) (buf : bytes) (pos i : nat) (acc : bytes)
             | None => Diag idx_msg
             | Some c2 => scan_string_loop f buf pos (S (S i)) (c2 :: c :: acc)
             end
+        else if c =? 10 then scan_string_loop f buf pos (S i) (110 :: 92 :: acc)   (* raw newline: backslash, n (commit 46f7545) *)
         else scan_string_loop f buf pos (S i) (c :: acc)
       end
   end.
